@@ -236,6 +236,12 @@ func builtinJSONStringifyWalk(ctx builtinJSONStringifyContext, key string, holde
 		integer := value.number()
 		switch integer.kind {
 		case numberInteger:
+			// A number held as a float64 is serialised as a float64: the encoder then writes the
+			// shortest digits that round-trip, which is what ToString does (ES5 15.12.3 Str step 9,
+			// 9.8.1); going through int64 prints all integer digits of values above 2^53.
+			if f, ok := value.value.(float64); ok && f != 0 {
+				return f, true
+			}
 			return integer.int64, true
 		case numberFloat:
 			return integer.float64, true
